@@ -604,20 +604,29 @@ func (c *Ctx) classifyAtom0(d *declInfo, li *loopInfo, ifs *ast.IfStmt, a ast.Ex
 							return "unknown-enum-number", text + " — enum number without a generated name"
 						}
 					}
+					// which index is it? (nodes / roots / edges of an operand, or a set filled by hand)
+					qual := ""
+					if io := originOfIndex(d, mv); io.kind != "" && io.kind != "set-of" {
+						qual = "(" + io.kind + ")"
+					}
 					if present {
 						if len(inserted) == 0 {
-							return "present-in-index", fmt.Sprintf("skips when %s is a key of %s (index not grown by this loop)", kexpr, mexpr)
+							return "present-in-index" + qual, fmt.Sprintf("skips when %s is a key of %s (index not grown by this loop)", kexpr, mexpr)
 						}
 						same := true
 						for _, k := range inserted {
 							same = same && k == kexpr
 						}
 						if same {
+							// keyed by the element itself (the ranged value), not by one of its attributes?
+							if rs, isRange := li.stmt.(*ast.RangeStmt); isRange && rs.Value != nil && types.ExprString(rs.Value) == kexpr {
+								return "dedupe(identity)", fmt.Sprintf("skips when the element %s itself was already inserted into %s by this loop", kexpr, mexpr)
+							}
 							return "dedupe", fmt.Sprintf("skips when %s was already inserted into %s by this loop (test and insert use the same key)", kexpr, mexpr)
 						}
 						return "placement-dependent", fmt.Sprintf("skips when %s is a key of %s while this loop inserts %v: the outcome depends on the order of the list", kexpr, mexpr, inserted)
 					}
-					return "absent-from-index", fmt.Sprintf("skips when %s is not a key of %s", kexpr, mexpr)
+					return "absent-from-index" + qual, fmt.Sprintf("skips when %s is not a key of %s", kexpr, mexpr)
 				}
 			}
 		}
@@ -816,6 +825,12 @@ func (c *Ctx) loopTotality(rule string, ds []*declInfo, table map[string]loopPol
 						ok = false
 						first = g
 					}
+					// an element recorded as seen and then not accepted shadows every later element
+					// with the same key: with repeated keys the outcome depends on the order of the list
+					if g.class == "marks-seen" && !admitted("marks-seen", pol.skips) {
+						ok = false
+						first = g
+					}
 				}
 				if ok {
 					continue
@@ -827,7 +842,7 @@ func (c *Ctx) loopTotality(rule string, ds []*declInfo, table map[string]loopPol
 					key = classes[len(classes)-1]
 				}
 				for _, cl := range classes {
-					if cl == "placement-dependent" {
+					if cl == "placement-dependent" || cl == "marks-seen" {
 						key = cl
 					}
 				}
@@ -963,6 +978,21 @@ func (c *Ctx) enumSkipPaths(d *declInfo, li *loopInfo, labels map[string]ast.Stm
 		end string // "" (falls through), continue, exit
 		pos token.Pos
 	}
+	// maps whose membership decides a skip in this loop: `_, ok := M[k]` in an if header or as a
+	// statement of the body
+	testedMaps := map[string]bool{}
+	ast.Inspect(li.body, func(m ast.Node) bool {
+		if as, ok := m.(*ast.AssignStmt); ok && len(as.Lhs) == 2 && len(as.Rhs) == 1 {
+			if ix, ok := as.Rhs[0].(*ast.IndexExpr); ok {
+				if t := d.pkg.TypesInfo.TypeOf(ix.X); t != nil {
+					if _, isMap := t.Underlying().(*types.Map); isMap {
+						testedMaps[normText(types.ExprString(ix.X))] = true
+					}
+				}
+			}
+		}
+		return true
+	})
 	count := 0
 	var run func(stmts []ast.Stmt, in pathState) []outcome
 	var one func(s ast.Stmt, in pathState) []outcome
@@ -1073,6 +1103,16 @@ func (c *Ctx) enumSkipPaths(d *declInfo, li *loopInfo, labels map[string]ast.Stm
 				st.acc = true // element-wise conversion of a sub-collection
 			}
 			return []outcome{{st: st}}
+		case *ast.AssignStmt:
+			// a store into a map this loop also tests for membership, on a path that has not
+			// (yet) accepted the element: the element is marked as seen before it is examined
+			for _, l := range x.Lhs {
+				if ix, ok := l.(*ast.IndexExpr); ok && testedMaps[normText(types.ExprString(ix.X))] {
+					g := guard{pos: x.Pos(), class: "marks-seen", desc: fmt.Sprintf("%s is recorded in %s before the element is accepted", types.ExprString(ix.Index), types.ExprString(ix.X))}
+					return []outcome{{st: withDecision(in, []guard{g})}}
+				}
+			}
+			return []outcome{{st: in}}
 		case *ast.BranchStmt:
 			t := branchTarget(d.fd.Body, x, labels)
 			switch x.Tok {
